@@ -99,11 +99,13 @@ static size_t vh_load_blinds(const jv *in, const char *key, int slot) {
     return n;
 }
 static void op_PedBlindSum(const jv *in, jout *out) {
-    unsigned char sum[32]; size_t n = vh_load_blinds(in, "blinds", 0); int ret;
+    unsigned char sum[32], *dst = sum; size_t n = vh_load_blinds(in, "blinds", 0); int ret;
     memset(sum, 0xAA, 32);
-    ret = secp256k1_pedersen_blind_sum(CTX, sum, VH_BLP[0], n, (size_t)jv_int(in, "npos", 0));
+    /* "alias": 1 = the output is the buffer of the FIRST input blind (the running-total idiom; the header does not forbid it) */
+    if (jv_int(in, "alias", 0) && n > 0) dst = (unsigned char*)VH_BLP[0][0];
+    ret = secp256k1_pedersen_blind_sum(CTX, dst, VH_BLP[0], n, (size_t)jv_int(in, "npos", 0));
     jo_int(out, "ret", ret);
-    if (ret) jo_bytes(out, "sum", sum, 32);
+    if (ret) jo_bytes(out, "sum", dst, 32);
 }
 static uint64_t VH_VAL[VH_PED_MAX];
 static void op_PedBlindGenSum(const jv *in, jout *out) {
